@@ -58,6 +58,55 @@ def _h(*parts) -> str:
     return hashlib.blake2b(repr(parts).encode(), digest_size=8).hexdigest()
 
 
+def _sig(x, depth=0):
+    """Process-independent structural signature of a task (function, literal arguments,
+    masked key references): lets the colour refinement tell apart two layers that differ
+    only in a keyword bound inside a functools.partial."""
+    import functools
+
+    from dask._task_spec import Task, TaskRef
+
+    from .digest import digest
+
+    if depth > 8:
+        return "..."
+    if isinstance(x, TaskRef):
+        return ("ref", _mask(x.key))
+    if isinstance(x, Alias):
+        return ("alias", _mask(x.target))
+    if isinstance(x, DataNode):
+        return ("data", digest(x.value))
+    if isinstance(x, Task):
+        return ("task", _sig(x.func, depth + 1), tuple(_sig(a, depth + 1) for a in x.args),
+                tuple(sorted((str(k), _sig(v, depth + 1)) for k, v in (x.kwargs or {}).items())))
+    if isinstance(x, functools.partial):
+        return ("partial", _sig(x.func, depth + 1), tuple(_sig(a, depth + 1) for a in x.args),
+                tuple(sorted((str(k), _sig(v, depth + 1)) for k, v in (x.keywords or {}).items())))
+    if isinstance(x, (list, tuple)):
+        return (type(x).__name__, tuple(_sig(a, depth + 1) for a in x))
+    if isinstance(x, dict):
+        return ("dict", tuple((_mask(k) if isinstance(k, (str, tuple)) else str(k), _sig(v, depth + 1)) for k, v in x.items()))
+    if isinstance(x, str):
+        return _TOKEN.sub("#", x)
+    if callable(x) and hasattr(x, "__qualname__"):
+        return ("fn", getattr(x, "__module__", ""), x.__qualname__)
+    funcs = getattr(x, "funcs", None)
+    if funcs is not None and hasattr(x, "first"):  # toolz.compose
+        return ("compose", _sig(x.first, depth + 1), tuple(_sig(f, depth + 1) for f in funcs))
+    try:
+        return ("v", digest(x))
+    except Exception:  # noqa: BLE001
+        return ("t", type(x).__name__)
+
+
+def _mask(k):
+    if isinstance(k, tuple):
+        return repr([_TOKEN.sub("#", p) if isinstance(p, str) else p for p in k])
+    if isinstance(k, str):
+        return _TOKEN.sub("#", k)
+    return repr(k)
+
+
 def _token_order(g) -> list[str]:
     """Order the tokens occurring in key names by a structural colour (a few
     rounds of colour refinement over 'token occurs in key', dependencies and
@@ -96,10 +145,14 @@ def _token_order(g) -> list[str]:
     base = {}
     for k, node in g.items():
         kind = "data" if isinstance(node, DataNode) else ("alias" if isinstance(node, Alias) else "task")
-        dg = digest(node.value) if kind == "data" else ""
+        try:
+            dg = digest(node.value) if kind == "data" else _h(_sig(node))
+        except Exception:  # noqa: BLE001
+            dg = ""
         base[k] = (masked[k], kind, dg)
     colour = {t: _h(sorted(base[k] for k in keys_of[t])) for t in first_seen}
-    for _ in range(3):
+    ncol = len(set(colour.values()))
+    for _round in range(24):
         new = {}
         for t in first_seen:
             rows = []
@@ -110,6 +163,10 @@ def _token_order(g) -> list[str]:
             rows.sort()
             new[t] = _h(colour[t], rows)
         colour = new
+        n2 = len(set(colour.values()))
+        if n2 == len(colour) or (n2 == ncol and _round >= 3):
+            break  # every token distinguished, or the partition stopped refining
+        ncol = n2
     return sorted(first_seen, key=lambda t: (colour[t], first_seen[t]))
 
 
